@@ -819,11 +819,13 @@ theorem takeHeld_mem {id : Nat} {held rest : List OkMsg} {m : OkMsg}
         exact ⟨List.mem_cons_of_mem _ (ih hr).1, (ih hr).2⟩
       · cases h
 
-private theorem count_optId_none (i : Nat) : (optId none).count i = 0 := rfl
-private theorem count_freeOpt (f : List Nat) (o : Option Buf) (i : Nat) :
-    (freeOpt f o).count i = (optId o).count i + f.count i := by
-  cases o <;> simp [freeOpt, optId, List.count_cons]; omega
-
+@[simp] theorem optId_some (b : Buf) : optId (some b) = [b.id] := rfl
+@[simp] theorem optId_none : optId none = [] := rfl
+@[simp] theorem fm_err (e : SErr) (r : List Msg) :
+    List.filterMap msgBufId (.err e :: r) = List.filterMap msgBufId r := rfl
+@[simp] theorem fm_ok (m : OkMsg) (r : List Msg) :
+    List.filterMap msgBufId (.ok m :: r) = m.buf.id :: List.filterMap msgBufId r := rfl
+@[simp] theorem inHand_ok (m : OkMsg) : inHand (.send (.ok m)) = [m.buf.id] := rfl
 
 /-! ### Generic case split over all steps -/
 
@@ -852,5 +854,113 @@ theorem ReuseOK_step {P : Params} {A : Assembler} {script : List Item} {s s' : S
     (h : ReuseOK s) (hs : step P A script s a = some s') : ReuseOK s' := by
   cases a <;> simp only [step] at hs <;> step_split <;>
     simp_all [ReuseOK, applyData_cur_isSome]
+
+theorem count_freeOpt (f : List Nat) (o : Option Buf) (i : Nat) :
+    (freeOpt f o).count i = (optId o).count i + f.count i := by
+  cases o <;> simp [freeOpt, List.count_cons]; omega
+
+theorem applyData_cur_id (s : State) (sl : Slot) (d : Bytes) :
+    optId (applyData s sl d).cur = optId s.cur := by
+  unfold applyData
+  split
+  · rfl
+  · rfl
+  · split
+    · next b hb => simp [hb, optId]
+    · next hb => simp [hb]
+
+set_option maxHeartbeats 1000000 in
+theorem Own_step {P : Params} {A : Assembler} {script : List Item} {s s' : State} {a : Step}
+    (hp : PoolOK P s) (hr : ReuseOK s) (h : Own s) (hs : step P A script s a = some s') : Own s' := by
+  cases a <;> simp only [step] at hs
+  case obtainAlloc =>
+    unfold stepObtainAlloc at hs
+    split at hs
+    · next hc =>
+      simp only [PoolOK, hc.1] at hp
+      injection hs with hs; subst hs
+      intro i; have hi := h i
+      simp only [owned, loopOwned, chanOwned, rxOwned, backOwned, inHand, optId_some, optId_none, hc.1, hc.2.1, hp.2,
+        List.count_append, List.count_cons, List.count_nil, beq_iff_eq] at hi ⊢
+      by_cases h1 : i < s.nextBuf
+      · have e1 : ¬ s.nextBuf = i := by omega
+        have e2 : i < s.nextBuf + 1 := by omega
+        simp only [h1, e1, e2, if_true, if_false] at hi ⊢; omega
+      · by_cases h2 : s.nextBuf = i
+        · have e2 : i < s.nextBuf + 1 := by omega
+          simp only [h1, e2, if_true, if_false] at hi ⊢
+          simp only [h2, if_true]; omega
+        · have e2 : ¬ i < s.nextBuf + 1 := by omega
+          simp only [h1, h2, e2, if_true, if_false] at hi ⊢; omega
+    · cases hs
+  case rxSendBack id =>
+    unfold stepRxSendBack at hs
+    split at hs
+    · split at hs
+      · next m rest htk =>
+        have hcnt := takeHeld_count htk
+        split at hs <;> (injection hs with hs; subst hs) <;>
+        · intro i; have hi := h i; have hc := hcnt i
+          simp only [owned, loopOwned, chanOwned, rxOwned, backOwned, List.count_append, List.count_cons,
+            List.count_nil, List.map_append, List.map_cons, List.map_nil] at hi hc ⊢
+          rw [← hi]; omega
+      · cases hs
+    · cases hs
+  case rxDrop id =>
+    unfold stepRxDrop at hs
+    split at hs
+    · next m rest htk =>
+      have hcnt := takeHeld_count htk
+      injection hs with hs; subst hs
+      intro i; have hi := h i; have hc := hcnt i
+      simp only [owned, loopOwned, chanOwned, rxOwned, backOwned, List.count_append, List.count_cons,
+        List.count_nil, List.map_append, List.map_cons, List.map_nil] at hi hc ⊢
+      rw [← hi]; omega
+    · cases hs
+  all_goals (
+    step_split <;>
+    (intro i; have hi := h i
+     simp_all [owned, loopOwned, chanOwned, rxOwned, backOwned, inHand, PoolOK, ReuseOK,
+       List.count_append, List.count_cons, count_freeOpt, applyData_cur_id] <;> try omega))
+
+/-! ### Order of delivery -/
+
+def okMsgs : List Msg → List OkMsg
+  | [] => []
+  | .ok m :: r => m :: okMsgs r
+  | .err _ :: r => okMsgs r
+
+@[simp] theorem okMsgs_append (a b : List Msg) : okMsgs (a ++ b) = okMsgs a ++ okMsgs b := by
+  induction a with
+  | nil => rfl
+  | cons x xs ih => cases x <;> simp [okMsgs, ih]
+
+/-- History invariant behind `in_order_no_dup`. -/
+structure Order (P : Params) (s : State) : Prop where
+  /-- everything enqueued is either received already or still in the channel, in that order -/
+  split : s.recvLog ++ okMsgs s.chan = s.sentLog
+  /-- enqueued payloads come from pairwise disjoint, increasing script segments of `T` items -/
+  incr : (s.sentLog.map (·.start)).Pairwise (fun a b => a + P.T ≤ b)
+  bound : ∀ m ∈ s.sentLog, m.start + P.T ≤ s.iterStart ∨ (s.enq = true ∧ m.start = s.iterStart)
+  enqc : s.enq = true → s.iterStart + P.T ≤ s.consumed
+  le : s.iterStart ≤ s.consumed
+  inHand : ∀ m, s.pc = .send (.ok m) → m.start = s.iterStart ∧ s.enq = false ∧ s.iterStart + P.T ≤ s.consumed
+  cnt : match s.pc with
+    | .obtain | .submit _ => s.consumed = s.iterStart ∧ s.enq = false
+    | .poll => s.consumed + s.pending.length = s.iterStart + P.T ∧ s.enq = false
+    | .parse => s.consumed = s.iterStart + P.T ∧ s.enq = false
+    | _ => True
+
+theorem Order_init (P : Params) : Order P (init P) := by
+  constructor <;> simp [init, okMsgs]
+
+theorem pending_length_of_submit {P : Params} {s : State} {k : Nat} (hp : PoolOK P s)
+    (hpc : s.pc = .submit k) : s.pending.length = k := by
+  simp only [PoolOK, hpc] at hp
+  have := congrArg List.length hp.2.1
+  simp only [slotsOf, List.length_map, List.length_take] at this
+  have hk := hp.1
+  unfold Params.T at hk
+  omega
 
 end CamVerif.StreamLoop
